@@ -240,3 +240,86 @@ Proof.
   split; [vm_compute; reflexivity|].
   intros [f [G O]]. vm_compute in G. injection G as <-. vm_compute in O. discriminate O.
 Qed.
+
+(* ---------------------------------------------------------------------------------------------
+   Tie to the code by translation + proof: the functions below are GENERATED on every run from /repo's
+   current Go source (translator/gen_gofuncs.go -> Gen/GoFiletree.v); the theorems say that the hand-written model the
+   property theorems above are about computes what the generated function computes, for all arguments. *)
+From Coq Require Import String.
+From JK Require Import Base.GoSem Gen.GoFiletree Proofs.GoTieFiletree.
+
+(* the nine filetree handlers, generated from the current source, in closed form: nothing is written before the entry
+   was found and the ownership test (for a post: the folder's edit-access test) passed *)
+Theorem C10_code_tie_handlers_write_only_after_their_tests :
+  forall found own target pfound has_edit access_ok parse_ok marshal_ok,
+    gen_DeleteFile found own = GVal (if found && own then ([Ev "remove-entry"%string []], true) else ([], false)) /\
+    gen_ChangeOwner found own target
+    = GVal (if found && own && negb target
+            then ([Ev "owner-becomes-new-owner"%string []; Ev "set-entry"%string []; Ev "remove-old-entry"%string []], true) else ([], false)) /\
+    gen_FtPostFile pfound has_edit access_ok
+    = GVal (if pfound && access_ok && has_edit then ([Ev "set-entry-under-parent"%string []], true) else ([], false)) /\
+    gen_AddViewers found own parse_ok marshal_ok = acl_spec "merge-ids-into-list" found own parse_ok marshal_ok /\
+    gen_AddEditors found own parse_ok marshal_ok = acl_spec "merge-ids-into-list" found own parse_ok marshal_ok /\
+    gen_RemoveViewers found own parse_ok marshal_ok = acl_spec "delete-ids-from-list" found own parse_ok marshal_ok /\
+    gen_RemoveEditors found own parse_ok marshal_ok = acl_spec "delete-ids-from-list" found own parse_ok marshal_ok /\
+    gen_ResetViewers found own parse_ok marshal_ok = acl_spec "list-becomes-the-signers-own-entry" found own parse_ok marshal_ok /\
+    gen_ResetEditors found own parse_ok marshal_ok = acl_spec "list-becomes-the-signers-own-entry" found own parse_ok marshal_ok.
+Proof.
+  intros. split; [exact (gen_DeleteFile_spec found own)|]. split; [exact (gen_ChangeOwner_spec found own target)|].
+  split; [exact (gen_FtPostFile_spec pfound has_edit access_ok)|]. exact (gen_acl_specs found own parse_ok marshal_ok).
+Qed.
+Print Assumptions C10_code_tie_handlers_write_only_after_their_tests.
+
+(* and the model's handlers are the interpretations of those skeletons, for every hash function, JSON parser and
+   JSON printer, on the reads taken from the model's store *)
+Theorem C10_code_tie_model_delete_chown_post :
+  forall (H : bytes -> bytes) (parse : bytes -> parsed) s creator a b c contents viewers editors track,
+    (let owner := make_owner H a b in
+     let f := get_file s a owner in
+     delete_file H s creator a b
+     = if ok_of (gen_DeleteFile (GoTieFiletree.is_some f) (match f with Some x => is_owner H x creator | None => false end))
+       then (remove_file s a owner, Ok) else (s, Fail)) /\
+    (let current := make_owner H a b in
+     let newo := make_owner H a c in
+     let f := get_file s a current in
+     change_owner H s creator a b c
+     = if ok_of (gen_ChangeOwner (GoTieFiletree.is_some f) (match f with Some x => is_owner H x creator | None => false end)
+                                 (GoTieFiletree.is_some (get_file s a newo)))
+       then match f with Some x => (remove_file (set_file s (with_owner x newo)) a current, Ok) | None => (s, Fail) end
+       else (s, Fail)) /\
+    (let parent := get_file s b (make_owner H b a) in
+     let acc := match parent with Some p => has_access H parse KEdit p creator | None => None end in
+     post_file H parse s creator a b c contents viewers editors track
+     = if ok_of (gen_FtPostFile (GoTieFiletree.is_some parent) (match acc with Some x => x | None => false end) (GoTieFiletree.is_some acc))
+       then let full := add_to_merkle H b c in
+            (set_file s (mkFile full contents (make_owner H full a) viewers editors track), Ok)
+       else (s, Fail)).
+Proof.
+  intros H parse s creator a b c contents viewers editors track.
+  exact (conj (delete_file_is_the_interpretation H s creator a b)
+        (conj (change_owner_is_the_interpretation H s creator a b c)
+              (post_file_is_the_interpretation H parse s creator a b c contents viewers editors track))).
+Qed.
+Print Assumptions C10_code_tie_model_delete_chown_post.
+
+Theorem C10_code_tie_model_access_lists :
+  forall (H : bytes -> bytes) (parse : bytes -> parsed) (render : option acl -> bytes) k s creator ids keys address fileowner,
+    let f := get_file s address fileowner in
+    let own := match f with Some x => is_owner H x creator | None => false end in
+    let pok := match f with Some x => match parse (acl_of k x) with PMap _ => true | PErr => false end | None => false end in
+    let go := ok_of (acl_spec "x" (GoTieFiletree.is_some f) own pok true) in
+    (go = false -> add_acl H parse render k s creator ids keys address fileowner = (s, Fail) /\
+                   remove_acl H parse render k s creator ids address fileowner = (s, Fail) /\
+                   reset_acl H parse render k s creator address fileowner = (s, Fail)) /\
+    (go = true -> exists x m, f = Some x /\ parse (acl_of k x) = PMap m /\ is_owner H x creator = true /\
+       remove_acl H parse render k s creator ids address fileowner
+         = (set_file s (with_acl k x (render (del_all_opt m (split_comma ids)))), Ok) /\
+       reset_acl H parse render k s creator address fileowner
+         = (set_file s (with_acl k x (render (Some (reset_map H k x creator m)))), Ok) /\
+       add_acl H parse render k s creator ids keys address fileowner
+         = match add_all_opt m (split_comma ids) (split_comma keys) with
+           | None => (s, Panic)
+           | Some m' => (set_file s (with_acl k x (render m')), Ok)
+           end).
+Proof. exact acl_handlers_follow_the_skeleton. Qed.
+Print Assumptions C10_code_tie_model_access_lists.
